@@ -648,7 +648,7 @@ def run(ctx):
             # the object is getHeader() — directly, or through a local that caches the pointer after the resize
             o = strip_all_casts(facts.expand(f, c["obj"])) if "obj" in c else {}
             return o.get("k") == "call" and (o.get("callee") or {}).get("nm") == "getHeader"
-        hdr_calls = [c for c in f.calls() if on_header(c)]
+        hdr_calls = [c for c in f.calls() if on_header(c) and not (c.get("callee") or {}).get("const") and c.get("args")]  # (reads of the header are not writes)
         # a cached header pointer must be taken after the buffer was resized (resize may reallocate)
         for c in hdr_calls:
             o = strip_all_casts(c["obj"])
